@@ -85,7 +85,7 @@ def register(reg):
                                      "and fresh(self.V_algo[%s - 1]) and g_npull(self.V_algo[%s - 1]) == 1 and g_nrecv(self.V_algo[%s - 1]) == 0 "
                                      "and g_nu(self.V_algo[%s - 1]) == self.numax)" % (L, L, L, L, L, L, L, L), "C10"),
                       ("others", "all(implies(i != %s, g_npull(self.V_algo[i]) == old(g_npull(self.V_algo[i]))) for i in range(old(%s)))" % (SERVED, L), "C10"),
-                      ("ready", "%s >= 1" % L, "C10 C01")])
+                      ("ready", "%s >= 1 and g_await(self) == 1" % L, "C10 C01")])
     fn("POO.receive_reward", props="C01 C04 C10 C15", N=[None], params={"time": "int", "reward": "real"},
        requires=INV + [("pulled", "%s >= 1" % L, "C10 C01"), ("typestate", "g_await(self) == 1", "C10")],
        ghost_after=["g_await(self) := 0"],
